@@ -41,6 +41,18 @@ class BufferAPI
     BufferAPI (const BufferAPI &rhs)            = delete;
     BufferAPI &operator= (const BufferAPI &rhs) = delete;
 
+    //  The value the buffer protocol requires for Py_buffer.len:
+    // product (shape) * itemsize, i.e. the size of the logical structure
+    // (for a Vec array that includes the element width, for a strided
+    // array it excludes the gaps).
+    Py_ssize_t shapeBytes() const
+    {
+        Py_ssize_t n = atomicSize();
+        for (int d = 0; d < dimensions; ++d)
+            n *= shape[d];
+        return n;
+    }
+
     //  API
     virtual bool        sharedBuffer() const = 0;
     virtual Py_ssize_t  numBytes() const     = 0;
@@ -101,7 +113,7 @@ class SharedBufferAPI : public BufferAPI<ArrayT>
      { return true; }
 
     Py_ssize_t numBytes() const override
-     { return _orig.len() * atomicSize() * _orig.stride(); }
+     { return this->shapeBytes(); }
 
     bool readOnly() const override
      { return !_orig.writable(); }
@@ -141,7 +153,7 @@ class CopyBufferAPI : public BufferAPI<ArrayT>
      { return false; }
 
     Py_ssize_t numBytes() const override
-     { return _copy.len() * atomicSize() * _copy.stride(); }
+     { return this->shapeBytes(); }
 
     bool readOnly() const override
      { return false; }
